@@ -26,10 +26,10 @@ META = {
 PRODUCER_ACTIONS = ["EmitTok", "XNull", "XBool", "XInt", "XReal", "XName", "XLit", "XHex", "XRef", "XArr", "XDict"]
 
 
-def gen_files(w, tag, ndocs, nfiles, seed, max_objects=6, max_revs=1, cfg="Gen_File.cfg"):
+def gen_files(w, tag, ndocs, nfiles, seed, max_objects=6, max_revs=1, cfg="Gen_File.cfg", deep=False):
     """seeded abstract documents (histories when max_revs > 1) -> TLC Producer in simulation mode -> files"""
     docs = os.path.join(w, "docs-%s.ndjson" % tag)
-    run_bin("c02", ["docs", "--seed", seed, "--n", ndocs, "--max-objects", max_objects, "--max-revs", max_revs, "--out", docs])
+    run_bin("c02", ["docs", "--seed", seed, "--n", ndocs, "--max-objects", max_objects, "--max-revs", max_revs, "--deep", 1 if deep else 0, "--out", docs])
     r = tlc("Gen_File.tla", cfg, workers=1, simulate=nfiles, depth=8000, env=dict(DOCS=docs), timeout=3000,
             name="genfile-" + tag, xmx="3g", seed_override=seed & 0x7FFFFFFF)
     return r, r.tagged("REPLAY")
